@@ -79,6 +79,7 @@ def _c05():
 
 def _c09():
     return [
+        ("R-RDB-STREAM-STATE", "every dump-writer function that reads a stream's entries also reads its last ID (the high-water mark and the existence of an emptied stream survive a restart)", rules_stream.rule_rdb_stream_state),
         ("R-RDB-OPC", "variant -> opcode (both writers) composed with opcode -> constructed variant (reader) is the identity on all six value types; the two writers agree", rules_rdb.rule_opc),
         ("R-RDB-LEN", "length encoding: encoder class bounds, tags, masks, shifts and byte order are consistent with the decoder's class switch; no silent truncation; scalar byte-order pairs", rules_rdb.rule_len),
         ("R-RDB-SHAPE", "per variant the sequence of primitive writes (with loop nesting) equals the sequence of primitive reads; expiry prefix mirrored", rules_rdb.rule_shape),
@@ -179,6 +180,7 @@ def _c14():
 
 def _c15():
     return [
+        ("R-RDB-STREAM-STATE", "every dump-writer function that reads a stream's entries also reads its last ID (the high-water mark and the existence of an emptied stream survive a restart)", rules_stream.rule_rdb_stream_state),
         ("R-ST-FIELDS", "a stream entry holds its field-value pairs in a container that keeps every pair in the order given (not a map keyed by the field name)", rules_stream.rule_st_fields),
         ("R-XREAD-COUNT", "a loop reading several streams hands each stream the caller's COUNT itself (no running budget) and ends only by exhaustion of the stream list or with an error", rules_stream.rule_xread_count),
         ("R-DISPATCH", "every stream command named by the property has a dispatcher arm with the right effect class and Stream primitive", rules_cmd.make_dispatch_rule("C15")),
